@@ -529,6 +529,9 @@ def monitors(scn, evs):
             # 300: credentials left to validate; the session must not be authenticated
             if e.after != e.before:
                 fail("relogin-unvalidated-never-authenticates", e, "reply 300 but the session became %s" % (e.after,))
+            if R[4] != (P[4] if P is not None else 0):
+                fail("relogin-unvalidated-features-kept", e, "reply 300: features %d of the secret became %d in the token handed back" %
+                     (P[4] if P is not None else 0, R[4]))
             if P is not None and R[1] > P[1] + slack_s(e):
                 fail("relogin-unvalidated-never-outlives", e, "token expiring at second %d exchanged (reply 300) for one expiring at %d" % (P[1], R[1]))
         by_slot[e.slot] = e
